@@ -30,6 +30,7 @@ func checkC10(c *Ctx, r *Report) {
 		return
 	}
 	c10Field(c, r, a)
+	c10Static(c, r, a)
 	c10Kinds(c, r, a)
 	c10Arg(c, r, a)
 	c10Req(c, r, a, "C10.REQ")
@@ -613,3 +614,42 @@ func c10Pre(c *Ctx, r *Report, a *Anchors, rule string) {
 }
 
 var _ = strings.Contains
+
+// c10Static: a selection made directly under an interface-typed field names a field of the interface.
+// The library has no separate validation pass for selections: the only existence check is the field lookup
+// made while resolving, against the container type handed down. If values behind an interface-typed
+// field are walked with their concrete object type instead, a field that only the object defines is
+// resolved (and its resolver run) where the declared container does not define it - unless a lookup
+// against the declared interface is made first.
+func c10Static(c *Ctx, r *Report, a *Anchors) {
+	r.rule("C10.STATIC", "values behind an interface-typed field are walked with the declared interface as container type, or the re-typing function first looks the selections up in the declared interface")
+	if a.inline == nil || a.spread == nil || a.fieldSels == nil {
+		r.undecided("C10.STATIC", "anchors of the selection-set resolver", 0, "not resolved")
+		return
+	}
+	ret := c.interfaceRetyped(a)
+	if len(ret) == 0 {
+		r.check("C10.STATIC", "interface-typed values are walked with the declared container type", a.dispatch.Pos(), true, "no re-typing site")
+		return
+	}
+	for i, ci := range ret {
+		fn := ci.Parent()
+		// a lookup of field definitions against the function's own Type parameter that dominates the re-typed call
+		checked := false
+		for _, c2 := range callsIn(fn) {
+			if c2.Common().StaticCallee() != a.getFD || a.getFD == nil {
+				continue
+			}
+			if !(c2.Block() == ci.Block() || c2.Block().Dominates(ci.Block())) {
+				continue
+			}
+			for _, arg := range c2.Common().Args {
+				if p, ok := stripIface(arg).(*ssa.Parameter); ok && c.isNamed(p.Type(), "Type") {
+					checked = true
+				}
+			}
+		}
+		r.check("C10.STATIC", fmt.Sprintf("%s: re-typing site #%d keeps the existence check against the declared interface", fnName(fn), i+1), ci.Pos(), checked,
+			"selections under an interface-typed field are looked up in the concrete object type only: a field the interface does not define is resolved, and its resolver invoked, instead of being rejected")
+	}
+}
